@@ -747,6 +747,9 @@ func runC02(c *Ctx) {
 			}
 		}
 		R.Decide(found != "", "rotation-table", "avl.(*node)", "rotation-"+want, "", "rotation of kind "+want+": "+found, "no function implements the "+want+" rotation structurally")
+		if found != "" {
+			R.Cover(found, "rotation-table")
+		}
 	}
 	// ---- fresh-node-height: a node created in the package starts with the height its shape has
 	{
@@ -940,6 +943,8 @@ func runC02(c *Ctx) {
 		}
 		R.Decide(ok, "rotation-heights", fi.Name, "order", c.pos(fi), "demoted: relink, height; then promoted: link, height", why)
 	}
+	R.Rule("state-frame", "who may write: only the functions that the height and rotation rules model (add, remove, popLeftMost, the rotations, Tree.Add) store to the height, left or right of an existing node; every other function of the package (calcHeight, balance, the walkers, ...) stores to none of them", 30)
+	avlFrame(c, a, "state-frame", []*types.Var{a.nHeight, a.nLeft, a.nRight}, "shape/height", "height-refresh", "rebalance-on-return", "rotation-shape", "rotation-heights", "rotation-table", "fresh-node-height")
 }
 
 func nodeLabel(t *Term) string {
